@@ -216,6 +216,58 @@ impl core::fmt::Display for Pieces<'_> {
     }
 }
 
+/// A Display impl that itself formats (nested write!): the adapter's write_fmt entry point.
+struct Nested(char, u32);
+impl core::fmt::Display for Nested {
+    fn fmt(&self, f: &mut core::fmt::Formatter<'_>) -> core::fmt::Result {
+        write!(f, "[{}-{:é>3}]", self.0, self.1)?;
+        f.write_fmt(format_args!("<{:?}>", self.0))
+    }
+}
+
+/// The format_args! universes of op "write_fmt" with a "fmtid": together they reach every
+/// core::fmt::Write entry point of write_fmt's adapter - write_str (literal pieces, str/int
+/// arguments), write_char (char arguments with {} and {:?}, fill characters of padded formats,
+/// escape paths of {:?}) and nested write_fmt - with characters of every UTF-8 length class
+/// ('a', U+00E9, U+00FF, U+0100, CJK, emoji).
+const NFMT: usize = 18;
+fn with_args(id: usize, f: &mut dyn FnMut(core::fmt::Arguments<'_>)) {
+    match id {
+        0 => f(format_args!("{}", 'a')),
+        1 => f(format_args!("{}", 'é')),
+        2 => f(format_args!("{}", 'ÿ')),
+        3 => f(format_args!("{}", 'Ā')),
+        4 => f(format_args!("{}", '日')),
+        5 => f(format_args!("{}", '😀')),
+        6 => f(format_args!("{:?}", 'é')),
+        7 => f(format_args!("{:?}", "aé\n\u{ff}\u{80}")),
+        8 => f(format_args!("{:é<5}", 7)),
+        9 => f(format_args!("{:→^7}", "ab")),
+        10 => f(format_args!("{:ÿ>4}|{:😀<3}", 'x', 1)),
+        11 => f(format_args!("{}{}{}", 'ÿ', "ÿ", 'ÿ')),
+        12 => f(format_args!("{}", Nested('ÿ', 5))),
+        13 => f(format_args!("{:>6}", 'é')),
+        14 => f(format_args!("{:#?}", ('é', "ÿ"))),
+        15 => f(format_args!("{:5}|{:<5}|{:^5}", 'ÿ', 'Ā', '😀')),
+        16 => f(format_args!("x{}y{:\u{80}>3}z{}", '\u{80}', 1, Nested('é', 12345))),
+        _ => f(format_args!("{:?}|{:?}|{:08.3}|{:+}", '\u{ff}', Some('Ā'), 3.14159f64, 7)),
+    }
+}
+/// Independent oracle: core's own formatting machinery into a recording sink (default write_char =
+/// encode_utf8 + write_str): the bytes write_fmt must deliver and the fragments it hands to write_all.
+#[derive(Default)]
+struct Recorder {
+    data: Vec<u8>,
+    frags: Vec<usize>,
+}
+impl core::fmt::Write for Recorder {
+    fn write_str(&mut self, s: &str) -> core::fmt::Result {
+        self.data.extend_from_slice(s.as_bytes());
+        self.frags.push(s.len());
+        Ok(())
+    }
+}
+
 fn run_case(c: &Value) -> Value {
     let op = c["op"].as_str().unwrap().to_string();
     let script = items_of(&c["script"]);
@@ -223,6 +275,19 @@ fn run_case(c: &Value) -> Value {
     let init = bytes_of(&c["init"]);
     let cap0 = c["cap0"].as_u64().unwrap_or(0) as usize;
     let n = c["n"].as_u64().unwrap_or(0) as usize;
+    let fmtid = c.get("fmtid").and_then(Value::as_u64).map(|x| x as usize);
+    let mut fmt_pieces: Vec<usize> = vec![];
+    let data = if let Some(id) = fmtid {
+        let mut rec = Recorder::default();
+        with_args(id, &mut |a| core::fmt::write(&mut rec, a).expect("harness: recorder"));
+        let mut expect = String::new();
+        with_args(id, &mut |a| expect = std::fmt::format(a));
+        assert!(expect.as_bytes() == rec.data.as_slice(), "harness: recorder and format! disagree");
+        fmt_pieces = rec.frags;
+        rec.data
+    } else {
+        data
+    };
     let mut s = Scripted::new(script, data.clone());
     // outcome: (err class, returned count, final buffer, final capacity, start capacity as allocated)
     let out = guarded(|| -> (i64, i64, Vec<u8>, usize, usize) {
@@ -253,6 +318,11 @@ fn run_case(c: &Value) -> Value {
                 let r = s.write_all(&data);
                 (err_class(&r), 0, vec![], 0, 0)
             }
+            "write_fmt" if fmtid.is_some() => {
+                let mut r = Ok(());
+                with_args(fmtid.unwrap(), &mut |a| r = s.write_fmt(a));
+                (err_class(&r), 0, vec![], 0, 0)
+            }
             "write_fmt" => {
                 let mut frags = vec![];
                 let mut o = 0usize;
@@ -272,7 +342,7 @@ fn run_case(c: &Value) -> Value {
     });
     let calls: Vec<Value> = s.calls.iter().map(|(a, k, m)| json!([a, k, m])).collect();
     let is_write = op.starts_with("write");
-    match out {
+    let mut res = match out {
         Ok((err, rn, buf, cap, c0)) => json!({
             "calls": calls, "err": err, "rn": rn,
             "buf": if is_write { s.sink.clone() } else { buf },
@@ -282,7 +352,13 @@ fn run_case(c: &Value) -> Value {
             "calls": calls, "err": -2, "rn": 0, "buf": if is_write { s.sink.clone() } else { vec![] },
             "pos": s.pos, "cap": 0, "cap_start": 0, "panic": msg,
         }),
+    };
+    if fmtid.is_some() {
+        // what core's formatting produces for these arguments: the check puts it into the case
+        res["data"] = json!(data);
+        res["pieces"] = json!(fmt_pieces);
     }
+    res
 }
 
 // ------------------------------------------------------------------------------------------
@@ -315,13 +391,14 @@ fn print_path(seed: u64, rounds: usize) {
     let mut results: Vec<Value> = vec![];
     // stdout: the writer directly, print!, println!, println!(); stderr: the writer, eprint!,
     // eprintln!, eprintln!(), dbg!(value)
-    let kinds = ["direct", "print", "println", "println0", "edirect", "eprint", "eprintln", "eprintln0", "dbg", "dbg0", "dbg2"];
+    let kinds = ["direct", "print", "println", "println0", "edirect", "eprint", "eprintln", "eprintln0", "dbg", "dbg0", "dbg2",
+        "printc", "eprintc"];
     let lens = [0usize, 1, 5, 4095, 4096, 4097, 9000, 20000, 70000];
     let mut idx = 0usize;
     for round in 0..rounds {
         for &len in &lens {
             for kind in kinds {
-                if ((kind.ends_with("ln0") || kind == "dbg0" || kind == "dbg2") && len != 0) || (kind == "dbg" && len > 9000) {
+                if ((kind.ends_with("ln0") || kind == "dbg0" || kind == "dbg2" || kind.ends_with("printc")) && len != 0) || (kind == "dbg" && len > 9000) {
                     continue;
                 }
                 let fd = if kind.starts_with('e') || kind.starts_with("dbg") { 2 } else { 1 };
@@ -437,6 +514,16 @@ fn print_path(seed: u64, rounds: usize) {
                         tiny_std::eprintln!();
                         ("\n".to_string(), None)
                     }
+                    "printc" => {
+                        // char arguments, fill characters, {:?} escapes, nested formatting: __UnixWriter's
+                        // write_char / write_fmt entry points; expected = what format! produces
+                        tiny_std::println!("{}{:é<5}{:?}{:ÿ^4}{}", 'ÿ', 7, 'é', '\u{80}', Nested('Ā', 3));
+                        (format!("{}{:é<5}{:?}{:ÿ^4}{}\n", 'ÿ', 7, 'é', '\u{80}', Nested('Ā', 3)), None)
+                    }
+                    "eprintc" => {
+                        tiny_std::eprint!("{}{:é<5}{:?}{:ÿ^4}{}", 'ÿ', 7, 'é', '\u{80}', Nested('Ā', 3));
+                        (format!("{}{:é<5}{:?}{:ÿ^4}{}", 'ÿ', 7, 'é', '\u{80}', Nested('Ā', 3)), None)
+                    }
                     "dbg0" => {
                         // dbg!() prints "[file:line]\n"
                         #[rustfmt::skip]
@@ -469,7 +556,7 @@ fn print_path(seed: u64, rounds: usize) {
                 let got = reader.join().unwrap();
                 // println!: the text and the newline are two writes; if the first is cut short by
                 // an error (discarded by the macro) the newline may still follow the prefix
-                let is_ln = kind.contains("println") || kind.starts_with("dbg");
+                let is_ln = kind.contains("println") || kind.starts_with("dbg") || kind == "printc";
                 let mut body: &[u8] = &got;
                 let mut nl = false;
                 if is_ln && body.last() == Some(&b'\n') {
